@@ -202,7 +202,12 @@ func (e *Exec) assume(c *Term) {
 	case Sat:
 		e.pc = append(e.pc, c)
 		e.S.Assert(c)
-		e.model, e.modelOK = m, true
+		if e.modelSatisfiesPC(m) {
+			e.model, e.modelOK = m, true
+		} else {
+			e.X.noteUnknown("solver model does not satisfy the path condition (assume)")
+			e.modelOK = false
+		}
 	}
 }
 
@@ -244,6 +249,10 @@ func (e *Exec) assert(c *Term, msg string) {
 			return
 		}
 		cex = m
+		if !e.modelSatisfiesPC(m) || c.Eval(m, map[*Term]uint64{}) != 0 {
+			e.X.noteUnknown("solver model for a failed assertion does not satisfy the query: " + msg)
+			return
+		}
 	}
 	e.viol = append(e.viol, &Violation{Msg: msg, Model: cex, Kind: "assert", Dec: append([]Decision(nil), e.dec...)})
 	// continue on the side where the assertion holds, if any
@@ -357,6 +366,10 @@ func init() {
 			buf := c.Sub[len(c.Sub)-1].V.(SliceVal)
 			return done(e.sliceBytes(buf))
 		},
+		"(google.golang.org/protobuf/internal/impl.Export).MessageStateOf": func(e *Exec, fr *Frame, fn *ssa.Function, a []Value) (Value, int) {
+			return done(Ptr{})
+		},
+		"(*google.golang.org/protobuf/internal/impl.MessageState).StoreMessageInfo": nop,
 		"runtime.Callers":      func(e *Exec, fr *Frame, fn *ssa.Function, a []Value) (Value, int) { return done(konst(0)) },
 		"runtime.KeepAlive":    nop,
 		"runtime.SetFinalizer": nop,
@@ -461,6 +474,19 @@ func init() {
 			e.cur.why = "WaitGroup.Wait in " + fr.fn.String()
 			return nil, stBlocked
 		},
+	}
+	// math/bits.Len*: the table-driven stdlib bodies cost three 256-way selects per call on a symbolic
+	// operand; the same function as a threshold chain (validated by the native witness replays)
+	for name, w := range map[string]int{"Len64": 64, "Len32": 32, "Len16": 16, "Len8": 8, "Len": 64} {
+		w := w
+		intrinsics["math/bits."+name] = func(e *Exec, fr *Frame, fn *ssa.Function, a []Value) (Value, int) {
+			x := termArg(a[0])
+			r := konst(0)
+			for k := 0; k < w; k++ {
+				r = Ite(CmpBV(OpULe, BV(w, uint64(1)<<uint(k)), x), konst(k+1), r)
+			}
+			return done(r)
+		}
 	}
 	// sync/atomic on plain integer cells
 	for _, ty := range []string{"Int32", "Int64", "Uint32", "Uint64", "Uintptr"} {
